@@ -295,6 +295,29 @@ func (e *evmRun) pair() {
 	nAfter := []uint64{c.App.EvmKeeper.GetNonce(ctx, sa.Eth), c.App.EvmKeeper.GetNonce(ctx, sb.Eth)}
 	executed := st.TxRes.Code == 0
 	s.Case(fmt.Sprintf("two-senders|executed=%v|second-nonce-ahead=%v", executed, nonce[1] != curNonce[1]))
+	if !executed && (nAfter[0] != curNonce[0] || nAfter[1] != curNonce[1]) {
+		// included but failed after the ante handler (e.g. the block gas meter ran out): as for single-message
+		// transactions the statement knows only 'included' (each sender charged at most its own gas limit x price, its
+		// nonce consumed, no value moved) and 'not included' (costs nothing)
+		s.Eval("charged-without-execution")
+		s.Case("two-senders|charged-without-execution")
+		paidSum := new(big.Int)
+		for k, name := range []string{"sender-1", "sender-2"} {
+			paid := new(big.Int).Neg(delta(name))
+			maxFee := new(big.Int).Mul(price[k], big.NewInt(21_000))
+			paidSum.Add(paidSum, paid)
+			if nAfter[k] != curNonce[k]+1 || paid.Sign() < 0 || paid.Cmp(maxFee) > 0 {
+				s.Violate("failed-message-accounting", "two-senders|"+name, e.hist, st.I, "two-message transaction failed after the ante handler (%s): nonce of %s %d -> %d, it paid %s (its max fee %s); %v", trunc80(st.Err), name, curNonce[k], nAfter[k], paid, maxFee, st.P)
+			}
+		}
+		if delta("collector").Cmp(paidSum) != 0 {
+			s.Violate("failed-message-accounting", "two-senders|collector", e.hist, st.I, "two-message transaction failed after the ante handler: senders paid %s, fee collector received %s", paidSum, delta("collector"))
+		}
+		if delta("to").Sign() != 0 {
+			s.Violate("failed-message-accounting", "two-senders|to", e.hist, st.I, "two-message transaction failed after the ante handler but the recipient's balance changed by %s", delta("to"))
+		}
+		return
+	}
 	if !executed {
 		for k := range watch {
 			if delta(k).Sign() != 0 {
